@@ -158,6 +158,9 @@ func genC09(t *testing.T) {
 		r := common.RngN("c09", uint64(i))
 		st := c09Stages[r.IntN(len(c09Stages))]
 		par := pars[r.IntN(len(pars))]
+		if r.IntN(15) == 0 {
+			par = []int{16, 33, 64}[r.IntN(3)]
+		}
 		ln := r.IntN(61)
 		if par >= 16 {
 			ln = r.IntN(200)
@@ -171,7 +174,7 @@ func genC09(t *testing.T) {
 				}
 			}
 		}
-		c := &caseT{Stage: st.stage, Mode: st.mode, Par: par, Cap: r.IntN(5), Inputs: [][]int{in}, Fail: fail, FSeed: r.Uint64() % 100000, Delay: []int{0, 10, 900, 900}[r.IntN(4)]}
+		c := &caseT{Stage: st.stage, Mode: st.mode, Par: par, Cap: wide(r, 5, 16, 64), Inputs: [][]int{in}, Fail: fail, FSeed: r.Uint64() % 100000, Delay: []int{0, 10, 900, 900}[r.IntN(4)]}
 		prod := rep("S0", r.IntN(ln+1))
 		if r.IntN(3) > 0 {
 			prod = append(rep("S0", ln), "C0")
